@@ -1,13 +1,560 @@
+// Concurrent part of the C02 harness: schedule replay.
+//
+// 2-3 goroutines run short programs against the real CachedBlockstore over the
+// fake datastore, every call of which parks on the scheduler below (before it
+// takes effect and again before it returns).  The scheduler performs ONE action
+// at a time (start a thread's next call, or release a parked thread), waits
+// until every thread is parked, idle or blocked on a mutex, and logs where each
+// thread is.  Coq replays the model along the logged schedule (model = code
+// step by step) and decides whether the observed history is linearizable
+// against the map.
 package c02
 
 import (
+	"context"
+	"fmt"
+	"regexp"
+	"runtime"
+	"strconv"
+	"strings"
 	"testing"
+	"time"
+
+	bstore "github.com/ipfs/boxo/blockstore"
 
 	"verif/harness/vh"
 )
 
-type sched struct{}
+type parkInfo struct {
+	phase, call string
+	key         int
+	val         string
+	resume      chan struct{}
+}
 
-func (s *sched) park(tid int, phase, call string, key int, val string) {}
+type event struct {
+	tid  int
+	park *parkInfo
+	res  string // response of a call (park == nil)
+}
 
-func runConcurrent(t *testing.T, e *vh.Env, cs *vh.Cases, st *vh.Stats) {}
+type cthread struct {
+	tid    int
+	gid    int64 // goroutine id of the worker (0: unknown, never blocked)
+	ops    []sop
+	next   int
+	cmd    chan int
+	state  string // "idle", "running", "park"
+	park   *parkInfo
+	res    []string
+	isBlkd bool
+}
+
+type sched struct {
+	ev  chan event
+	thr []*cthread
+}
+
+func (s *sched) park(tid int, phase, call string, key int, val string) {
+	pi := &parkInfo{phase: phase, call: call, key: key, val: val, resume: make(chan struct{})}
+	s.ev <- event{tid: tid, park: pi}
+	<-pi.resume
+}
+
+var gidRe = regexp.MustCompile(`(?m)^goroutine (\d+) \[([^\],]+)`)
+
+func curGid() int64 {
+	buf := make([]byte, 64)
+	n := runtime.Stack(buf, false)
+	m := gidRe.FindSubmatch(buf[:n])
+	id, _ := strconv.ParseInt(string(m[1]), 10, 64)
+	return id
+}
+
+func goroutineStates() map[int64]string {
+	buf := make([]byte, 1<<20)
+	n := runtime.Stack(buf, true)
+	out := map[int64]string{}
+	for _, m := range gidRe.FindAllSubmatch(buf[:n], -1) {
+		id, _ := strconv.ParseInt(string(m[1]), 10, 64)
+		out[id] = string(m[2])
+	}
+	return out
+}
+
+func isMutexWait(state string) bool {
+	switch state {
+	case "sync.Mutex.Lock", "sync.RWMutex.RLock", "sync.RWMutex.Lock", "semacquire":
+		return true
+	}
+	return false
+}
+
+func (s *sched) drain() {
+	for {
+		select {
+		case e := <-s.ev:
+			th := s.thr[e.tid]
+			if e.park != nil {
+				th.state, th.park = "park", e.park
+			} else {
+				th.state = "idle"
+				th.res = append(th.res, e.res)
+			}
+		default:
+			return
+		}
+	}
+}
+
+// settle waits until every thread is parked, idle, or blocked on a mutex.
+// Parked and idle threads are inert by construction (they wait for the
+// scheduler); a thread is "blocked" only if, in ONE stack snapshot, it and every
+// other not-yet-reported thread is waiting for a mutex — then nothing can move
+// until the scheduler acts.
+func (s *sched) settle(t *testing.T) {
+	deadline := time.Now().Add(20 * time.Second)
+	for spins := 0; ; spins++ {
+		s.drain()
+		var running []*cthread
+		for _, th := range s.thr {
+			th.isBlkd = false
+			if th.state == "running" {
+				running = append(running, th)
+			}
+		}
+		if len(running) == 0 {
+			return
+		}
+		if spins > 2 {
+			states := goroutineStates()
+			all := true
+			for _, th := range running {
+				if th.gid == 0 || !isMutexWait(states[th.gid]) {
+					all = false
+				}
+			}
+			if all {
+				// nothing arrived since the snapshot?
+				s.drain()
+				still := true
+				for _, th := range running {
+					if th.state != "running" {
+						still = false
+					}
+				}
+				if still {
+					for _, th := range running {
+						th.isBlkd = true
+					}
+					return
+				}
+				continue
+			}
+		}
+		if time.Now().After(deadline) {
+			t.Fatalf("scheduler: threads did not settle")
+		}
+		if spins < 50 {
+			runtime.Gosched()
+		} else {
+			time.Sleep(20 * time.Microsecond)
+		}
+	}
+}
+
+func callCoq(c string) string {
+	return map[string]string{"Has": "CHas", "Get": "CGet", "GetSize": "CGetSize", "Put": "CPut", "Delete": "CDelete",
+		"Commit": "CCommit", "Query": "CQuery", "Next": "CNext"}[c]
+}
+
+func (s *sched) statuses() []string {
+	out := make([]string, len(s.thr))
+	for i, th := range s.thr {
+		switch {
+		case th.state == "park" && th.park.phase == "pre":
+			out[i] = fmt.Sprintf("TPre %s %d", callCoq(th.park.call), th.park.key)
+		case th.state == "park":
+			out[i] = fmt.Sprintf("TPost %s %d %s", callCoq(th.park.call), th.park.key, vh.Bool(th.park.val == "1"))
+		case th.state == "running" && th.isBlkd:
+			out[i] = "TBlocked"
+		default:
+			out[i] = fmt.Sprintf("TIdle %d", len(th.res))
+		}
+	}
+	return out
+}
+
+// ---------- one concurrent case ----------
+
+type concCfg struct {
+	TQ     int    `json:"tq"`
+	Bloom  int    `json:"bloom"`
+	Hashes int    `json:"hashes"`
+	Viewer bool   `json:"viewer"`
+	Init   []int  `json:"init"`
+	BKind  string `json:"build_kind"`
+	BPos   int    `json:"build_pos"`
+}
+
+// chooser decides the next scheduler action among n options.
+type chooser func(opts []string) int
+
+type concResult struct {
+	term    string
+	replay  map[string]any
+	nsteps  int
+	blocked bool
+	key     string
+}
+
+func runConc(t *testing.T, u *universe, c concCfg, progs [][]sop, choose chooser) concResult {
+	ctx := context.Background()
+	sc := &sched{ev: make(chan event, 256)}
+	base := u.baseStore(seqCfg{WT: true, NoPfx: true, Viewer: c.Viewer})
+	for _, k := range c.Init {
+		if err := base.bs.Put(ctx, u.block(k, 0)); err != nil {
+			t.Fatal(err)
+		}
+	}
+	base.d.takeTouched()
+	off := 0
+	if c.Bloom != 0 {
+		off = 1
+		sc.thr = append(sc.thr, &cthread{tid: 0, state: "running"})
+	}
+	for i, p := range progs {
+		sc.thr = append(sc.thr, &cthread{tid: i + off, ops: p, cmd: make(chan int), state: "idle"})
+	}
+	base.d.sch = sc
+	bctx, bcancel := context.WithCancel(withTid(ctx, 0))
+	defer bcancel()
+	if c.Bloom != 0 {
+		base.d.plans[0] = qplan{kind: c.BKind, pos: c.BPos}
+	}
+	cbs, err := bstore.CachedBlockstore(bctx, base.bs, bstore.CacheOpts{
+		HasBloomFilterSize: c.Bloom, HasBloomFilterHashes: c.Hashes, HasTwoQueueCacheSize: c.TQ})
+	if err != nil {
+		t.Fatal(err)
+	}
+	cached := &store{bs: cbs, d: base.d}
+	if st, ok := cbs.(bstore.BloomCacheStatus); ok {
+		cached.bcs = st
+		go func() { // the "response" of the initial build
+			r := resErr(st.Wait(ctx))
+			if r == "RNotFound" {
+				r = "RErr"
+			}
+			sc.ev <- event{tid: 0, res: r}
+		}()
+	}
+	for _, th := range sc.thr {
+		if th.cmd == nil {
+			continue
+		}
+		th := th
+		ready := make(chan struct{})
+		go func() {
+			th.gid = curGid()
+			close(ready)
+			tctx := withTid(ctx, th.tid)
+			for i := range th.cmd {
+				o := th.ops[i]
+				var r string
+				switch {
+				case o.Kind == "rebuild":
+					base.d.mu.Lock()
+					base.d.plans[th.tid] = qplan{kind: o.QKind, pos: o.QPos}
+					base.d.mu.Unlock()
+					r = resErr(cached.bcs.Rebuild(tctx))
+				case isCtl(o.Kind):
+					r = u.applyCtl(tctx, cached, o)
+				default:
+					r = u.applyNoFault(tctx, cached, o)
+				}
+				sc.ev <- event{tid: th.tid, res: r}
+			}
+		}()
+		<-ready
+	}
+	defer func() {
+		for _, th := range sc.thr {
+			if th.cmd != nil {
+				close(th.cmd)
+			}
+		}
+	}()
+	sc.settle(t)
+	st0 := sc.statuses()
+	var steps []string
+	var acts []string
+	anyBlocked := false
+	for {
+		var opts []string
+		for _, th := range sc.thr {
+			switch {
+			case th.state == "idle" && th.next < len(th.ops):
+				opts = append(opts, fmt.Sprintf("S%d", th.tid))
+			case th.state == "park":
+				opts = append(opts, fmt.Sprintf("R%d", th.tid))
+			}
+		}
+		if len(opts) == 0 {
+			break
+		}
+		a := opts[choose(opts)]
+		tid, _ := strconv.Atoi(a[1:])
+		th := sc.thr[tid]
+		var act string
+		if a[0] == 'S' {
+			th.state = "running"
+			th.cmd <- th.next
+			th.next++
+			act = fmt.Sprintf("AStart %d", tid)
+		} else {
+			pi := th.park
+			th.state, th.park = "running", nil
+			close(pi.resume)
+			act = fmt.Sprintf("ARel %d", tid)
+		}
+		sc.settle(t)
+		sts := sc.statuses()
+		for _, x := range sts {
+			if x == "TBlocked" {
+				anyBlocked = true
+			}
+		}
+		steps = append(steps, fmt.Sprintf("mkStep (%s) %s", act, vh.ListOf(sts, func(x string) string { return "(" + x + ")" })))
+		acts = append(acts, a)
+		if len(steps) > 400 {
+			t.Fatalf("schedule does not terminate: %v", acts)
+		}
+	}
+	for _, th := range sc.thr {
+		if th.state != "idle" {
+			t.Fatalf("deadlock: thread %d is %s (blocked=%v) after %v", th.tid, th.state, th.isBlkd, acts)
+		}
+	}
+	masks := "pos_none"
+	if c.Bloom != 0 {
+		masks = posName(u, c.Bloom, c.Hashes)
+	}
+	bn, bc := enumOutcome(c.BKind, c.BPos, true)
+	var results, progsCoq []string
+	for _, th := range sc.thr {
+		results = append(results, vh.List(th.res))
+	}
+	for _, p := range progs {
+		progsCoq = append(progsCoq, vh.ListOf(p, func(o sop) string { return o.coq(true) }))
+	}
+	term := fmt.Sprintf("CConc (mkConc (Build_cfg %s %s) %s %s %s %d %s %s %s %s %s)",
+		vh.Bool(c.TQ > 0), vh.Bool(c.Bloom != 0), masks, u.sizesZ,
+		vh.ListOf(c.Init, func(k int) string { return fmt.Sprint(k) }), bn, vh.Bool(bc),
+		vh.List(progsCoq), vh.ListOf(st0, func(x string) string { return "(" + x + ")" }), vh.List(steps), vh.List(results))
+	return concResult{term: term, nsteps: len(steps), blocked: anyBlocked,
+		key:    fmt.Sprintf("%+v|%v|%s", c, progs, strings.Join(acts, "")),
+		replay: map[string]any{"kind": "conc", "cfg": c, "progs": progs, "schedule": strings.Join(acts, " ")}}
+}
+
+// applyNoFault is apply without touching the datastore's fault switch (threads run concurrently).
+func (u *universe) applyNoFault(ctx context.Context, s *store, o sop) string {
+	o.Fault = false
+	return u.applyRaw(ctx, s, o)
+}
+
+// ---------- schedules ----------
+
+func scripted(script []string, fallback chooser) chooser {
+	i := 0
+	return func(opts []string) int {
+		for i < len(script) {
+			want := script[i]
+			i++
+			for j, o := range opts {
+				if o == want {
+					return j
+				}
+			}
+			panic(fmt.Sprintf("scripted schedule: %q not enabled among %v", want, opts))
+		}
+		return fallback(opts)
+	}
+}
+
+func firstEnabled(opts []string) int { return 0 }
+
+func randomChooser(e *vh.Env) chooser {
+	// sticky random: keeps running the same thread for a while, so that both long
+	// uninterrupted stretches and fine interleavings occur
+	last := ""
+	stick := e.Rng.Intn(4)
+	return func(opts []string) int {
+		if last != "" && e.Rng.Intn(4) < stick {
+			for j, o := range opts {
+				if o[1:] == last {
+					return j
+				}
+			}
+		}
+		j := e.Rng.Intn(len(opts))
+		last = opts[j][1:]
+		return j
+	}
+}
+
+// dfs enumerates schedules exhaustively (depth first) up to a budget.
+type dfs struct {
+	prefix []int
+	nopts  []int
+	depth  int
+}
+
+func (d *dfs) choose(opts []string) int {
+	c := 0
+	if d.depth < len(d.prefix) {
+		c = d.prefix[d.depth]
+	} else {
+		d.prefix = append(d.prefix, 0)
+	}
+	if d.depth < len(d.nopts) {
+		d.nopts[d.depth] = len(opts)
+	} else {
+		d.nopts = append(d.nopts, len(opts))
+	}
+	d.depth++
+	return c
+}
+
+// next advances to the next schedule; false when the space is exhausted.
+func (d *dfs) next() bool {
+	d.prefix, d.nopts = d.prefix[:d.depth], d.nopts[:d.depth]
+	for i := len(d.prefix) - 1; i >= 0; i-- {
+		if d.prefix[i]+1 < d.nopts[i] {
+			d.prefix[i]++
+			d.prefix, d.nopts = d.prefix[:i+1], d.nopts[:i+1]
+			d.depth = 0
+			return true
+		}
+	}
+	return false
+}
+
+func genProg(e *vh.Env, nkeys, n int, bloom bool) []sop {
+	r := e.Rng
+	var ops []sop
+	for len(ops) < n {
+		k := r.Intn(nkeys)
+		v := r.Intn(3)
+		switch x := r.Intn(100); {
+		case x < 22:
+			ops = append(ops, sop{Kind: "has", K: k, Variant: v})
+		case x < 34:
+			ops = append(ops, sop{Kind: "get", K: k, Variant: v})
+		case x < 44:
+			ops = append(ops, sop{Kind: "getsize", K: k, Variant: v})
+		case x < 50:
+			ops = append(ops, sop{Kind: "view", K: k, Variant: v})
+		case x < 70:
+			ops = append(ops, sop{Kind: "put", K: k, Variant: v})
+		case x < 84:
+			ops = append(ops, sop{Kind: "delete", K: k, Variant: v})
+		case x < 91:
+			m := 1 + r.Intn(3)
+			ks := make([]int, m)
+			for i := range ks {
+				ks[i] = r.Intn(nkeys)
+			}
+			ops = append(ops, sop{Kind: "putmany", Ks: ks, Variant: v})
+		default:
+			if bloom {
+				o := sop{Kind: "rebuild"}
+				if r.Intn(4) == 0 {
+					o.QKind, o.QPos = "err", r.Intn(nkeys+1)
+				}
+				ops = append(ops, o)
+			}
+		}
+	}
+	return ops
+}
+
+func runConcurrent(t *testing.T, e *vh.Env, cs *vh.Cases, st *vh.Stats) {
+	u := newUniverse(6) // concurrent programs use keys 0..2 of the 6-key universe
+	add := func(r concResult, bucket string) {
+		cs.Add(r.term, r.replay)
+		st.Case(r.key, r.nsteps >= 8)
+		st.Count(bucket)
+		if r.blocked {
+			st.Count("conc/with-a-thread-blocked-on-a-lock")
+		}
+	}
+	// corpus: the witness of finding C02-1 (activation while a Put is between its
+	// store write and its filter add), with and without the 2Q layer
+	// (with the 2Q layer in between the same window exists but contains no datastore
+	// call, so the scheduler cannot hold a thread inside it)
+	{
+		c := concCfg{Bloom: 1, Hashes: 3}
+		progs := [][]sop{{{Kind: "put", K: 0}}, {{Kind: "has", K: 0}, {Kind: "has", K: 0}}}
+		script := []string{"R0", "R0", "S1", "R1", "S2", "R2", "R2", "R0", "S2"}
+		add(runConc(t, u, c, progs, scripted(script, firstEnabled)), "conc/corpus")
+	}
+	n := 0
+	// exhaustive schedules of small programs
+	small := []struct {
+		c     concCfg
+		progs [][]sop
+	}{
+		{concCfg{TQ: 8}, [][]sop{{{Kind: "put", K: 0}}, {{Kind: "has", K: 0}, {Kind: "get", K: 0}}}},
+		{concCfg{TQ: 8, Init: []int{0}}, [][]sop{{{Kind: "delete", K: 0}}, {{Kind: "getsize", K: 0}, {Kind: "has", K: 0}}}},
+		{concCfg{TQ: 8, Init: []int{0}}, [][]sop{{{Kind: "delete", K: 0}, {Kind: "put", K: 0}}, {{Kind: "put", K: 0}, {Kind: "has", K: 0}}}},
+		{concCfg{TQ: 8, Viewer: true}, [][]sop{{{Kind: "putmany", Ks: []int{1, 0}}}, {{Kind: "put", K: 1}, {Kind: "view", K: 0}}}},
+		{concCfg{Bloom: 1, Hashes: 3, Init: []int{1}}, [][]sop{{{Kind: "put", K: 0}}, {{Kind: "has", K: 0}}}},
+		{concCfg{Bloom: 1, Hashes: 3, Init: []int{0}}, [][]sop{{{Kind: "rebuild"}}, {{Kind: "get", K: 0}, {Kind: "delete", K: 0}}}},
+		{concCfg{TQ: 8, Bloom: 1, Hashes: 3}, [][]sop{{{Kind: "put", K: 0}}, {{Kind: "rebuild"}}}},
+	}
+	budget := e.Pick(150, 4000)
+	for i, sm := range small {
+		d := &dfs{}
+		for k := 0; k < budget; k++ {
+			d.depth = 0
+			add(runConc(t, u, sm.c, sm.progs, d.choose), fmt.Sprintf("conc/exhaustive/prog%d", i))
+			n++
+			if !d.next() {
+				st.Count(fmt.Sprintf("conc/exhaustive/prog%d-complete", i))
+				break
+			}
+		}
+	}
+	// seeded schedules of random programs: 2-3 goroutines x <= 4 calls over 2-3 keys
+	nrand := e.Pick(500, 15000)
+	for i := 0; i < nrand; i++ {
+		c := concCfg{Viewer: e.Rng.Intn(2) == 0}
+		switch e.Rng.Intn(5) {
+		case 0, 1:
+			c.TQ = 8
+		case 2:
+			c.Bloom, c.Hashes = 1, []int{1, 3, 7}[e.Rng.Intn(3)]
+		default:
+			c.TQ, c.Bloom, c.Hashes = 8, 1, []int{1, 3, 7}[e.Rng.Intn(3)]
+		}
+		nkeys := 2 + e.Rng.Intn(2)
+		for k := 0; k < nkeys; k++ {
+			if e.Rng.Intn(3) == 0 {
+				c.Init = append(c.Init, k)
+			}
+		}
+		if c.Bloom != 0 && e.Rng.Intn(6) == 0 {
+			c.BKind, c.BPos = "err", e.Rng.Intn(len(c.Init)+1)
+		}
+		nthr := 2 + e.Rng.Intn(2)
+		progs := make([][]sop, nthr)
+		for j := range progs {
+			progs[j] = genProg(e, nkeys, 1+e.Rng.Intn(4), c.Bloom != 0)
+		}
+		add(runConc(t, u, c, progs, randomChooser(e)), "conc/random")
+		n++
+	}
+	st.Extra["concurrent"] = fmt.Sprintf("%d executed schedules (2-3 goroutines x <=4 calls over 2-3 keys, 2Q and/or Bloom layer, initial build and Rebuild "+
+		"running concurrently, enumeration errors); every datastore call parks before and after its effect; each schedule is replayed on the "+
+		"LTS model step by step in Coq and its history is checked for linearizability against the map by exhaustive search in Coq", n+1)
+}
